@@ -13,6 +13,15 @@ import (
 	"strings"
 )
 
+// AtCall is an assertion evaluated in the caller's scope right before the Ord-th call (source order, 1-based;
+// 0 = every call) of Callee (short key, e.g. "Server.setCaughtUp"); arg0, arg1, ... name the actual arguments.
+type AtCall struct {
+	Callee string
+	Ord    int
+	Cl     Clause
+	Assume bool // environment assumption (listed in the evidence) instead of an obligation
+}
+
 type Clause struct {
 	Label string
 	Src   string
@@ -66,6 +75,8 @@ type Contract struct {
 	Mutates      []string            // abstract-valued parameters (usually the receiver) updated in place
 	Iter         *IterSpec           // the callee calls a callback over a ghost sequence
 	Gates        []Gate              // extra conditions asserted at every call of a command handler
+	AtCall       []AtCall            // extra obligations at the call sites of a callee inside this function
+	AfterLock    []Clause            // monitor invariants assumed right after a lock acquisition inside this function (listed as assumptions)
 	HavocRegions []string            // (lock acquisition) regions of shared state other threads may have changed
 	Assumed      bool                // extern (trusted) contract
 	File         string
@@ -719,6 +730,34 @@ func (sp *Specs) loadSpecFile(path, pkgPrefix string, assumed bool) error {
 			}
 			g.Cond = cl
 			cur.Gates = append(cur.Gates, g)
+		case "at-call", "env-at-call":
+			if cur == nil {
+				return fmt.Errorf("%s:%d: clause outside func", path, l.ln)
+			}
+			f := strings.SplitN(rest, " ", 2)
+			if len(f) != 2 {
+				return fmt.Errorf("%s:%d: at-call Callee[#k] [label] expr", path, l.ln)
+			}
+			ac := AtCall{Callee: f[0], Assume: word == "env-at-call"}
+			if i := strings.Index(f[0], "#"); i >= 0 {
+				ac.Callee = f[0][:i]
+				ac.Ord, _ = strconv.Atoi(f[0][i+1:])
+			}
+			cl, err := mkClause(strings.TrimSpace(f[1]), l.ln)
+			if err != nil {
+				return err
+			}
+			ac.Cl = cl
+			cur.AtCall = append(cur.AtCall, ac)
+		case "after-lock":
+			if cur == nil {
+				return fmt.Errorf("%s:%d: clause outside func", path, l.ln)
+			}
+			cl, err := mkClause(rest, l.ln)
+			if err != nil {
+				return err
+			}
+			cur.AfterLock = append(cur.AfterLock, cl)
 		case "havocs":
 			if cur == nil {
 				return fmt.Errorf("%s:%d: clause outside func", path, l.ln)
